@@ -383,6 +383,28 @@ def run(P, R, tier):
                 okr = any(d[0] == 'expr' and 'right_df.geometry.name' in norm(d[1]) for d in ge)
     R.check(okr, 'C20.e', sj, None, 'sjoin(how="right") wraps the result with the right frame\'s geometry as active geometry',
             'sjoin(how="right") wraps the result with the default (first) geometry column, which is a left-over column of the left frame', construct='GeoDataFrame(joined, geometry=right geometry)')
+    # sjoin's index-recording helper returns a frame that DESCENDS from its argument through pandas methods (copy, reset_index, rename ...: they carry
+    # `_geometry` along); a frame re-constructed from other pieces (`type(df)(<plain frame>)`, GeoDataFrame(...) without geometry=) falls back to the first
+    # geometry column, and the join is computed on that column
+    rr = P.mods['spatialpandas.tools.sjoin'].funcs.get('_record_reset_index')
+    if rr is not None and rr.params:
+        d0 = rr.params[0]
+        for st_ in [x for x in walk_own(rr.node) if isinstance(x, ast.Assign) and any(isinstance(t_, ast.Name) and t_.id == d0 for t_ in x.targets)] + \
+                   [x for x in walk_own(rr.node) if isinstance(x, ast.Return) and x.value is not None]:
+            v_ = st_.value.elts[0] if isinstance(st_, ast.Return) and isinstance(st_.value, ast.Tuple) and st_.value.elts else st_.value
+            root = v_
+            while True:
+                if isinstance(root, ast.Call) and isinstance(root.func, ast.Attribute):
+                    root = root.func.value
+                elif isinstance(root, (ast.Attribute, ast.Subscript)):
+                    root = root.value
+                else:
+                    break
+            built = isinstance(root, ast.Call) and not isinstance(root.func, ast.Attribute)
+            keeps = built and astq.arg_of(root, kw='geometry') is not None
+            R.check(not built or keeps, 'C20.e', rr, st_, 'the frame sjoin works on descends from its argument through pandas methods (the active geometry travels with it)',
+                    f'`{norm(st_)[:90]}` re-constructs the frame with `{norm(root.func) if built else ""}(...)` and no geometry=: the active geometry is re-derived (first geometry column), so the '
+                    'join uses another geometry column than the caller made active', construct=f'_record_reset_index: {norm(v_)[:40]}')
     pk = P.func('spatialpandas.dask', 'DaskGeoDataFrame.pack_partitions_to_parquet')
     okpk = False
     for s_ in walk_own(pk.node):
